@@ -5,4 +5,5 @@ From V Require Import C20.Model.
 Extraction "c20_model.ml" step run snapshot state_at state_before_index tx_by_hash rc_by_hash
   apply_diffs layer_of upto before before_layers tx_layers before_tx_layers ldiff deploy_fresh view_aligned contiguous_from
   oldest tip numbers is_lastupd empty_diff merge cnorm crun cinit single_writer completed
+  hstep hrun hinit nth_view denote_view denote_entry denote_diff hget gouter gmap garr gcls gpcv sl_cells
   Z.of_N.
